@@ -12,13 +12,13 @@ use std::time::{Duration, Instant};
 pub const BOUND: usize = 16 * 1024 * 1024 + 4096;
 
 fn gen_sig(rng: &mut Rng) -> Signature {
-    let n = match rng.below(5) {
+    let n = if crate::util::tiny() { rng.range(0, 3) } else { match rng.below(5) {
         0 => 0,
         1 => 1,
         2 => rng.range(2, 40),
         3 => rng.range(40, 400),
         _ => rng.range(1000, 3000),
-    };
+    } };
     let mut s = Signature::new(*rng.pick(&[0usize, 1, 512, 2048, 65536, usize::MAX, 12345]), rng.next() >> rng.below(64));
     for i in 0..n {
         let mut h = [0u8; 32];
@@ -31,34 +31,34 @@ fn gen_delta(rng: &mut Rng) -> Delta {
     let mut h = [0u8; 32];
     h.copy_from_slice(&rng.bytes(32));
     let mut d = Delta::with_checksum(rng.next() as u32, rng.next() >> rng.below(64), rng.next() >> rng.below(64), StrongHash::from_bytes(h));
-    let n = match rng.below(4) {
+    let n = if crate::util::tiny() { rng.range(0, 3) } else { match rng.below(4) {
         0 => 0,
         1 => 1,
         2 => rng.range(2, 30),
         _ => rng.range(100, 600),
-    };
+    } };
     for _ in 0..n {
         if rng.chance(1, 2) {
             d.ops.push(DeltaOp::Copy { offset: rng.next() >> rng.below(64), len: rng.next() as u32 });
         } else {
-            let l = match rng.below(4) {
+            let l = if crate::util::tiny() { rng.range(0, 12) } else { match rng.below(4) {
                 0 => 0,
                 1 => rng.range(1, 20),
                 2 => rng.range(100, 3000),
                 _ => rng.range(20_000, 90_000),
-            };
+            } };
             d.ops.push(DeltaOp::Literal(rng.bytes(l)));
         }
     }
     d
 }
 fn gen_string(rng: &mut Rng) -> String {
-    let n = match rng.below(4) {
+    let n = if crate::util::tiny() { rng.range(0, 8) } else { match rng.below(4) {
         0 => 0,
         1 => rng.range(1, 10),
         2 => rng.range(10, 300),
         _ => rng.range(5000, 70_000),
-    };
+    } };
     let alpha = ['a', 'Z', ' ', '\n', 'é', '日', '\0', '"'];
     (0..n).map(|_| *rng.pick(&alpha)).collect()
 }
@@ -163,6 +163,7 @@ fn roundtrip(seed: u64, idx: u64, rep: &mut Report) {
         1 => 16 * 1024 * 1024,
         _ => rng.below(16 * 1024 * 1024 + 1) as u32,
     };
+    let len = if crate::util::tiny() { len % 4096 } else { len };
     let mut h = FrameHeader::new(mt, len);
     h.flags = rng.next() as u16;
     let enc = h.encode();
@@ -269,7 +270,7 @@ fn mutate(rng: &mut Rng, v: &mut Vec<u8>) -> &'static str {
 
 fn arbitrary(seed: u64, idx: u64, rep: &mut Report) {
     let mut rng = Rng::derive(seed, 202, idx);
-    for _ in 0..32 {
+    for _ in 0..(if crate::util::tiny() { 3 } else { 32 }) {
         rep.evaluations += 1;
         let class;
         let mut bytes: Vec<u8>;
@@ -416,7 +417,13 @@ pub fn run_limited(args: &[&str], cwd: &Path, as_kib: u64, timeout_s: u64) -> Li
     use std::process::{Command, Stdio};
     let t0 = Instant::now();
     let mut cmd = Command::new("bash");
-    cmd.arg("-c").arg(format!("ulimit -c 0; ulimit -v {as_kib}; exec \"$0\" \"$@\"")).arg(copia_bin()).args(args).current_dir(cwd).env("RUST_LOG", "off").stdin(Stdio::null()).stdout(Stdio::null()).stderr(Stdio::piped());
+    if crate::c01::valgrind() {
+        // memcheck needs far more address space than the limit under test: no RLIMIT_AS in this stage
+        cmd.arg("-c").arg("ulimit -c 0; exec valgrind -q --error-exitcode=97 --errors-for-leak-kinds=none --leak-check=no \"$0\" \"$@\"").arg(copia_bin()).args(args);
+    } else {
+        cmd.arg("-c").arg(format!("ulimit -c 0; ulimit -v {as_kib}; exec \"$0\" \"$@\"")).arg(copia_bin()).args(args);
+    }
+    cmd.current_dir(cwd).env("RUST_LOG", "off").stdin(Stdio::null()).stdout(Stdio::null()).stderr(Stdio::piped());
     let mut child = cmd.spawn().expect("spawn");
     let mut timed_out = false;
     let status = loop {
@@ -545,7 +552,10 @@ fn hostile_files(seed: u64, idx: u64, work: &Path, rep: &mut Report) {
         let r = if kindf == "sig" { run_limited(&["delta", "source", "h.sig", "-o", "o.delta"], &dir, 2 * 1024 * 1024, 60) } else { run_limited(&["patch", "basis", "h.delta", "-o", "o.out"], &dir, 2 * 1024 * 1024, 60) };
         let fclass: String = field.split(['=', '@', ':']).next().unwrap_or("").to_string();
         let ctx = json!({"seed": seed, "case": idx, "file": kindf, "field": field, "bs": bs, "file_hex_head": hex(&bytes[..bytes.len().min(64)])});
-        let outcome = if r.timed_out {
+        let outcome = if r.code == Some(97) && crate::c01::valgrind() {
+            rep.violation(&format!("C20|cli|valgrind-memcheck-error|{kindf}:{fclass}"), json!({"ctx": ctx, "stderr": r.stderr.chars().take(600).collect::<String>()}));
+            "valgrind-error"
+        } else if r.timed_out {
             rep.inconclusive += 1;
             rep.count("cli_timeouts", 1);
             "timeout"
@@ -601,9 +611,13 @@ pub fn run(seed: u64, thorough: bool, cases: Option<u64>, work: &Path, stage: &s
     if stage == "lib" || stage == "all" {
         let n = cases.unwrap_or(if thorough { 60_000 } else { 5000 });
         rep.merge(par_cases(n, |i, r| roundtrip(seed, i, r)));
-        rep.merge(par_cases(if thorough { 60_000 } else { 6000 }, |i, r| arbitrary(seed, i, r)));
-        header_fields(&mut rep);
-        huge_lengths(seed, &mut rep);
+        if crate::util::tiny() {
+            rep.merge(par_cases(n, |i, r| arbitrary(seed, i, r)));
+        } else {
+            rep.merge(par_cases(if thorough { 60_000 } else { 6000 }, |i, r| arbitrary(seed, i, r)));
+            header_fields(&mut rep);
+            huge_lengths(seed, &mut rep);
+        }
     }
     if stage == "cli" || stage == "all" {
         let n = if thorough { 30 } else { 2 };
